@@ -140,7 +140,7 @@ def rand_value(rng, ct=None, unsigned=False, allow_null=True):
     if k in ("dt", "mdate"):
         y, m, d = rand_date(rng)
         if k == "mdate" and y == 0:
-            y = 1
+            y = 1; d = min(d, dim(y, m))
         h, mi, s = rng.randint(0, 23), rng.randint(0, 59), rng.randint(0, 59)
         us = rng.choice([0, 0, 1, 999999, rng.randint(0, 999999)])
         txt = b"%04d-%02d-%02d %02d:%02d:%02d" % (y, m, d, h, mi, s) + (b".%06d" % us if us else b"")
